@@ -174,10 +174,10 @@ def verilog(nl, cmap, dffcell, opts, const_gate_inputs=None):
         inst.append(f'{cell} {esc("u_" + gname)} ({pins_text(pairs)});')
     for k, (skind, d) in enumerate(nl.states):
         cell, pm = dffcell
-        iname = f's{k}'
+        iname = f's{k}.x' if opts.escape else f's{k}'
         pairs = [(pm['D'], sig_name[d]), (pm['CLK'], 'clk'), (pm['Q'], sig_name[f'q{k}'] if f'q{k}' in readers else None),
                  (pm['QN'], sig_name[f'n{k}'] if f'n{k}' in readers else None)]
-        inst.append(f'{cell} {iname} ({pins_text(pairs)});')
+        inst.append(f'{cell} {(chr(92) + iname + chr(9)) if opts.escape else iname} ({pins_text(pairs)});')
         inst_names[k] = iname
     # ---- output assigns
     out_assign = []
